@@ -179,7 +179,7 @@ def gen_env(r, dirs):
         return "EMPTY"
     if k < .32:
         return r.choice(["", ":", "-", "-:-", "EMPTY:EMPTY", "relative/x", ".../nonexistent12", "EMPTY:-", "./bad name", ".../bad name/x",
-                         "~", "~/", "~/../" + EXTRA, "....//x", ".../../" + EXTRA, "...//{ROOT}/" + EXTRA])
+                         "~", "~/", "~/../" + EXTRA, "....//x", ".../../" + EXTRA, ".../{ROOT}/" + EXTRA])
     def absd():
         d = r.choice(dirs)
         return "{ROOT}" + ("/" + d if d else "")
@@ -230,6 +230,35 @@ def gen_history(r, i, maxlen=4):
     return {"kind": "history", "i": i, "tree": tree, "lookups": lookups, "etc": etc, "spine_dev": spine_dev}
 
 
+def gen_partition(r, i):
+    """Device boundaries on purpose: a chain of directories with a database at every level, st_dev
+    chosen per level (1-2-1 patterns, boundary at the scratch root, boundary above a missing target)."""
+    depth = r.randint(2, 4)
+    names = [r.choice(["a", "b", "proj"]) for _ in range(depth)]
+    tree = {"dev": r.choice([1, 1, 2]), "dir": {"home": {"dev": 1, "dir": {}}}}
+    node, rel, dirs = tree, "", [""]
+    for lvl in range(depth + 1):
+        if r.random() < .8:
+            node["dir"][".pyflyby"] = {"dev": node["dev"], "file": {"stmts": [["imp", r.choice(KNOWN_POOL)]], "ident_form": False}}
+        if r.random() < .3:
+            node["dir"][EXTRA] = {"dev": node["dev"], "dir": {"e.py": {"dev": node["dev"], "file": {"stmts": [["imp", r.choice(KNOWN_POOL)]], "ident_form": False}}}}
+        if lvl == depth:
+            break
+        ch = {"dev": node["dev"] if r.random() < .45 else r.choice([1, 2, 3]), "dir": {}}
+        node["dir"][names[lvl]] = ch
+        rel = (rel + "/" if rel else "") + names[lvl]
+        dirs.append(rel)
+        node = ch
+    lookups = []
+    for _ in range(r.randint(1, 3)):
+        d = r.choice(dirs[1:] + [dirs[-1]] * 2)
+        lookups.append({"cwd": r.choice(dirs), "home": "{ROOT}/home",
+                        "target": "{ROOT}/" + d + r.choice(["/t.py", "/t.py", "/no/such/t.py", ""]),
+                        "env": [r.choice([None, None, ".../.pyflyby", ".../" + EXTRA + ":-", ".../.pyflyby:.../" + EXTRA]), None, None]})
+    return {"kind": "history", "i": i, "tree": tree, "lookups": lookups, "etc": [],
+            "spine_dev": r.choice([tree["dev"], tree["dev"], 9])}
+
+
 def gen_compose(r, i):
     """No file system: _from_code on in-memory blocks, and ImportDB.__or__."""
     files = [gen_spec(r) for _ in range(r.randint(1, 4))]
@@ -259,8 +288,10 @@ def gen_cases(ctx, n):
     for i in range(n):
         r = cm.rng(ctx.seed, "c12", i)
         k = i % 20
-        if k < 16:
+        if k < 14:
             cases.append(gen_history(r, i))
+        elif k < 16:
+            cases.append(gen_partition(r, i))
         elif k < 19:
             cases.append(gen_compose(r, i))
         else:
@@ -275,7 +306,6 @@ def gen_exhaustive(ctx, ntrees, alphabet=5, maxlen=4):
     for ti in range(ntrees):
         r = cm.rng(ctx.seed, "c12-exh", ti)
         h = gen_history(r, 10 ** 6 + ti, maxlen=4)
-        _, dirs = h["tree"], None
         qs = []
         dirs = sorted(set([lk["cwd"] for lk in h["lookups"]] + ["", "home"]))
         while len(qs) < alphabet:
@@ -756,7 +786,7 @@ def compare(ctx, cases, impl, index, model):
 
 def run(ctx):
     n = int(os.environ.get("VERIF_C12_N", 400 if ctx.quick else 4000))
-    ctx.coverage["rule"] = ("cases from one seeded PRNG: 80% lookup histories (1-4 lookups; cwd, HOME, target and the three "
+    ctx.coverage["rule"] = ("cases from one seeded PRNG: 70% lookup histories + 10% device-boundary chains (1-4 lookups; cwd, HOME, target and the three "
                             "environment variables change between lookups) in generated trees with .pyflyby files/dirs at several "
                             "levels, hidden/__pycache__/unsafe entries, device boundaries; 15% in-memory compositions (+ __or__); "
                             "5% _find_etc_dirs trees; thorough adds all sequences up to length 4 over 5 queries on 2 trees; "
